@@ -180,9 +180,15 @@ def make_class(program: Tuple[Tuple[str, tuple, str], ...], base: type = plumpy.
     async def run(self: Any) -> Any:
         return process_states.Continue(self.s0)
 
+    def on_pausing(self: Any, msg: Any = None) -> None:
+        if ENV is not None:
+            ENV.pre_pause_status = self.status
+        base.on_pausing(self, msg)
+
     ns['define'] = classmethod(define)
     ns['__init__'] = __init__
     ns['run'] = run
+    ns['on_pausing'] = on_pausing
     cls = type(name, (base,), ns)
     cls = persistence.auto_persist('_trace')(cls)
     _CLASSES[key] = cls
